@@ -306,6 +306,15 @@ def weight_dma(V, **params):
     return c08.encode(V, **params)
 
 
+def programmed_kernel(V, **params):
+    """the footprint the compiler analyses (check_mem_limits, address ranges) is derived from the operation's shapes and strides; the NPU derives
+    the rows and columns it reads from the KERNEL_STRIDE / KERNEL_SIZE registers - they must carry the operation's kernel, or the hardware reads
+    rows the analysis never saw (harness/c06.py pair, kernel group: symbolic kernel size and strides incl. the extension bits)"""
+    from harness import c06
+
+    return c06.pair(V, **params)
+
+
 def idle_core(V, **params):
     """an operation with fewer weight/scale ranges than cores programs length 0 for the idle core instead of leaving the previous operation's
     base and length in its registers (harness/c06.py pair, weights/biases groups on the two-core accelerator)"""
@@ -450,7 +459,7 @@ def footprint_strided(V, first_dense):
     return [("every element of the strided view lies inside a declared address range", z3.Or(*inside) if inside else z3.BoolVal(False))]
 
 
-FUNCS = {"footprint_strided": footprint_strided, "format_rules": format_rules, "tile_padding": tile_padding, "rolling_dims": rolling_dims, "weight_dma": weight_dma, "buffering": buffering, "weight_ranges": weight_ranges, "idle_core": idle_core, "fm_in_tensor": fm_in_tensor, "lr_rolling": lr_rolling, "nhcwb16_shapes": nhcwb16_shapes, "footprint": footprint, "mem_limits": mem_limits, "rolling": rolling, "regions": regions}
+FUNCS = {"programmed_kernel": programmed_kernel, "footprint_strided": footprint_strided, "format_rules": format_rules, "tile_padding": tile_padding, "rolling_dims": rolling_dims, "weight_dma": weight_dma, "buffering": buffering, "weight_ranges": weight_ranges, "idle_core": idle_core, "fm_in_tensor": fm_in_tensor, "lr_rolling": lr_rolling, "nhcwb16_shapes": nhcwb16_shapes, "footprint": footprint, "mem_limits": mem_limits, "rolling": rolling, "regions": regions}
 
 
 def instances(tier, seed):
@@ -490,6 +499,9 @@ def instances(tier, seed):
     for gname in ("weights", "biases"):
         out.append(dict(key="idle_core/%s" % gname, fn="idle_core", params=dict(accel="Ethos_U65_512", kind="conv", group=gname, light=True), weight=100))
     out.append(dict(key="rolling_dims", fn="rolling_dims", params={}))
+    for accel, kinds in (("Ethos_U55_128", ("conv",) if tier == "quick" else ("conv", "dw", "pool")), ("Ethos_U65_512", ("dw",) if tier == "quick" else ("conv", "dw", "pool"))):
+        for kind in kinds:
+            out.append(dict(key="programmed_kernel/%s/%s" % (accel, kind), fn="programmed_kernel", params=dict(accel=accel, kind=kind, group="kernel"), weight=100))
     for fd in (0, 1):
         out.append(dict(key="footprint_strided/%s" % ("after_dense" if fd else "alone"), fn="footprint_strided", params=dict(first_dense=fd)))
     for nprod, ncons in ((1, 1), (1, 2), (2, 1)):
